@@ -14,5 +14,10 @@ for tag in ("A", "B"):
         raw = json.load(open(os.path.join(d, "%s.%s.json" % (c, tag))))
         out[tag][c] = renorm.inventory(raw)
         print(tag, c, dict((k, len(v)) for k, v in out[tag][c].items()))
-json.dump(out, open(renorm.REF_FILE, "w"), indent=0, sort_keys=True)
+from zx import facts
+for tag in ("A", "B"):
+    prog = facts.Program(tag)
+    out[tag]["_seq"] = renorm.named_sequences(prog)
+    print(tag, "member-access sequences:", len(out[tag]["_seq"]), "functions,", sum(len(v) for v in out[tag]["_seq"].values()), "tokens")
+json.dump(out, open(renorm.REF_FILE, "w"), separators=(",", ":"), sort_keys=True)
 print(os.path.getsize(renorm.REF_FILE), "bytes")
